@@ -103,6 +103,7 @@ def strategy(tier: str):
             "debug_log": st.sampled_from((False, False, True)),  # `aiomysensors --debug` (the CLI always logs at DEBUG)
             "ctx": st.sampled_from(("same", "same", "same", "copied", "thread")),
             "mqtt": st.sampled_from((False, False, True)),  # the same line spelled as MQTT topic levels + payload
+            "mqtt_prefix": st.sampled_from(MQTT_PREFIXES),
         }
     )
 
@@ -132,6 +133,11 @@ def enumerate_cases(tier: str):
                         yield {"version": version, "line": ";".join(fields) + ";" + payload + "\n", "mqtt": True}
             for payload in ("9;hello", "a/b", ""):
                 yield {"version": version, "line": ";".join(head) + ";" + payload + "\n", "mqtt": True}
+        # every kind of topic prefix x node ids whose digits occur in the prefix
+        for prefix in MQTT_PREFIXES:
+            for node in (0, 1, 2, 3, 5, 10, 11, 12, 21, 55, 110, 125, 201, 250, 255):
+                for rest in ("255;3;0;9;hello", "1;1;1;47;1;2;3", "255;0;0;17;2.0"):
+                    yield {"version": version, "line": f"{node};{rest}\n", "mqtt": True, "mqtt_prefix": prefix}
     versions = VERSIONS if tier == "thorough" else ("1.4", "2.2")
     reps = (NODE_REPS, CHILD_REPS, CMD_REPS, ACK_REPS, TYPE_REPS)
     for version in versions:
@@ -156,7 +162,10 @@ def enumerate_cases(tier: str):
                 yield {"version": version, "line": ";".join(combo) + ";p;q\n"}
 
 
-def _via_mqtt(version: str, line: str, ctx: str | None):
+MQTT_PREFIXES = ("gw/out", "mygateway1-out", "0", "12/5", "255/0/1", "1", "3/3/3/3/3/3", "mysensors/2")  # incl. the README default; digits that also occur in ids
+
+
+def _via_mqtt(version: str, line: str, ctx: str | None, prefix: str = "gw/out"):
     """Deliver the line as topic '<in>/f0/f1/f2/f3/f4' + payload through a real MQTTClient and listen. None = not expressible."""
     import asyncio
 
@@ -177,11 +186,11 @@ def _via_mqtt(version: str, line: str, ctx: str | None):
     async def main():
         broker = c18.FakeBroker()
         c18._patch(broker)
-        transport = MQTTClient("broker.invalid", 1883, "gw/out", "gw/in")
+        transport = MQTTClient("broker.invalid", 1883, prefix, "gw/in")
         gateway, _ = env.make_gateway(version, transport=transport, ctx=ctx)
         await transport.connect()
         try:
-            if not broker.deliver("gw/out/" + "/".join(parts[:5]), raw, 0):
+            if not broker.deliver(prefix + "/" + "/".join(parts[:5]), raw, 0):
                 return None  # no subscription matches (e.g. the command level is not 0-4): the broker sends nothing
             agen = gateway.listen()
             try:
@@ -229,7 +238,7 @@ def _run_case(case: dict) -> Outcome:
 
     schema = env.in_ctx(ctx, build_schema)
     if case.get("mqtt"):
-        got = _via_mqtt(version, line, ctx)
+        got = _via_mqtt(version, line, ctx, case.get("mqtt_prefix") or "gw/out")
         if got is not None:
             classes += ("via-mqtt",)
             status, value = got
@@ -245,6 +254,10 @@ def _run_case(case: dict) -> Outcome:
                 fields = env.msg_fields(value)
                 if fields[:5] != ref["values"] or not payload_matches(ref["rest"], fields[5]):
                     return fail("mqtt-misdecoded", f"topic levels + payload spelling {line!r} decoded as {fields}", classes=classes)
+            if verdict == "accept" and status == "liberr" and isinstance(value, InvalidMessageError) and None not in ref["values"]:
+                v_node, v_child, v_cmd = ref["values"][0], ref["values"][1], ref["values"][2]
+                if not (v_cmd == 3 or (v_cmd == 0 and v_child == 255 and v_node == 0)):  # (payload-converting handlers may reject)
+                    return fail("mqtt-rejects-wellformed", f"topic levels + payload spelling {line!r} (prefix {case.get('mqtt_prefix')!r}) rejected: {value!r}", classes=classes)
             if verdict == "accept" and status == "dropped":
                 return fail("mqtt-dropped-wellformed", f"topic levels + payload spelling {line!r}: nothing was received", classes=classes)
     for warm in case.get("warmup", ()):
